@@ -207,6 +207,117 @@ theorem memrchr_s_C02 (dest dmax : Nat) (ch : Int) (b : Bos) (st : St) (hrd : de
   obtain ⟨r, st', he, _, hst, _⟩ := hacc.sound st (fun a ⟨hs, h⟩ => RD_of st dest dmax (hrd hs) a h) (fun _ h => h.elim)
   exact ⟨r, st', he, hst⟩
 
+/-! ### memcmp family -/
+
+theorem Acc_memcmpLoopQ {W : Nat → Prop} (f : Nat → Nat → Int) (dmax slen dp sp : Nat) :
+    Acc (fun a => In dp (min dmax slen) a ∨ In sp (min dmax slen) a) W (memcmpLoopQ f dmax slen dp sp) (fun _ => True) := by
+  induction dmax generalizing slen dp sp with
+  | zero => unfold memcmpLoopQ; exact Acc.pure _ trivial
+  | succ n ih =>
+    cases slen with
+    | zero => unfold memcmpLoopQ; exact Acc.pure _ trivial
+    | succ m =>
+      unfold memcmpLoopQ
+      have hmin : min (n+1) (m+1) = min n m + 1 := by omega
+      refine Acc.bind (Acc.loadP dp (Or.inl ⟨Nat.le_refl _, by omega⟩)) (fun a _ => ?_)
+      refine Acc.bind (Acc.loadP sp (Or.inr ⟨Nat.le_refl _, by omega⟩)) (fun b _ => ?_)
+      split
+      · exact Acc.pure _ trivial
+      · exact (ih m (dp+1) (sp+1)).mono
+          (fun a h => by rcases h with ⟨h1, h2⟩ | ⟨h1, h2⟩
+                         · exact Or.inl ⟨by omega, by omega⟩
+                         · exact Or.inr ⟨by omega, by omega⟩) (fun _ h => h)
+
+/-- the shared checks touch no memory and let the call proceed only with `slen ≤ dlen` -/
+theorem Acc_memcmpChecks {R W : Nat → Prop} (max dlen slen dB sB dL dL' : Nat) (db sb : Bos) :
+    Acc R W (memcmpChecks max dlen slen dB sB dL dL' db sb) (fun r => r = none → slen ≤ dlen) := by
+  unfold memcmpChecks
+  have fail : ∀ c, Acc R W (qFailM c) (fun r => r ≠ none) := fun c => Acc_qFailM c
+  have failQ : ∀ c (P : Prop), Acc R W (qFailM c) (fun r => r = none → P) :=
+    fun c P => (fail c).conseq (fun r hr h => absurd h hr)
+  refine Acc.bind (Q := fun _ => True) ?_ (fun x _ => ?_)
+  · split
+    · split
+      · exact (fail _).conseq (fun _ _ => trivial)
+      · exact Acc.pure _ trivial
+    · split
+      · split <;> exact (fail _).conseq (fun _ _ => trivial)
+      · exact Acc.pure _ trivial
+  · split
+    · exact Acc.pure _ (by simp)
+    · split
+      · exact failQ _ _
+      · refine Acc.bind (Q := fun _ => True) ?_ (fun y _ => ?_)
+        · split
+          · split
+            · exact (fail _).conseq (fun _ _ => trivial)
+            · exact Acc.pure _ trivial
+          · split
+            · split <;> exact (fail _).conseq (fun _ _ => trivial)
+            · exact Acc.pure _ trivial
+        · split
+          · exact Acc.pure _ (by simp)
+          · split
+            · exact failQ _ _
+            · rename_i hle
+              exact Acc.pure _ (fun _ => by omega)
+
+/-- **memcmp_s / memcmp16_s / memcmp32_s** (shared body): only the first `slen` elements of each
+operand are read, and only when `slen ≤ dlen` — for every argument combination -/
+theorem memcmpG_C02 (max : Nat) (f : Nat → Nat → Int) (dest dlen src slen dB sB dL dL' : Nat) (db sb : Bos) (st : St)
+    (hd : dest ≠ 0 → RD st dest dlen) (hs : src ≠ 0 → RD st src slen) :
+    ∃ r st', exec (memcmpG max f dest dlen src slen dB sB dL dL' db sb) st = .ok (r, st') ∧ NoStray st st' := by
+  have hacc : Acc (fun a => (dest ≠ 0 ∧ In dest dlen a) ∨ (src ≠ 0 ∧ In src slen a)) (fun _ => False)
+      (memcmpG max f dest dlen src slen dB sB dL dL' db sb) (fun _ => True) := by
+    unfold memcmpG
+    split
+    · repeat acc_step
+    · rename_i hdn
+      split
+      · repeat acc_step
+      · rename_i hsn
+        split
+        · repeat acc_step
+        · refine Acc.bind (Acc_memcmpChecks max dlen slen dB sB dL dL' db sb) (fun x hx => ?_)
+          cases x with
+          | some e => exact Acc.pure _ trivial
+          | none =>
+            have hle := hx rfl
+            dsimp only
+            split
+            · exact Acc.pure _ trivial
+            · refine Acc.bind ((Acc_memcmpLoopQ f dlen slen dest src).mono ?_ (fun _ h => h)) (fun _ _ => Acc.pure _ trivial)
+              intro a h
+              have hmin : min dlen slen = slen := by omega
+              rw [hmin] at h
+              rcases h with ⟨h1, h2⟩ | h
+              · exact Or.inl ⟨hdn, h1, by omega⟩
+              · exact Or.inr ⟨hsn, h⟩
+  obtain ⟨r, st', he, _, hst, _⟩ := hacc.sound st
+    (fun a h => by rcases h with ⟨h1, h2⟩ | ⟨h1, h2⟩
+                   · exact RD_of st dest dlen (hd h1) a h2
+                   · exact RD_of st src slen (hs h1) a h2)
+    (fun _ h => h.elim)
+  exact ⟨r, st', he, hst⟩
+
+/-- **memcmp_s** -/
+theorem memcmp_s_C02 (dest dmax src slen : Nat) (db sb : Bos) (st : St)
+    (hd : dest ≠ 0 → RD st dest dmax) (hs : src ≠ 0 → RD st src slen) :
+    ∃ r st', exec (memcmp_s dest dmax src slen db sb) st = .ok (r, st') ∧ NoStray st st' :=
+  memcmpG_C02 _ _ dest dmax src slen _ _ _ _ db sb st hd hs
+
+/-- **memcmp16_s** (cells are 16-bit elements) -/
+theorem memcmp16_s_C02 (dest dlen src slen : Nat) (db sb : Bos) (st : St)
+    (hd : dest ≠ 0 → RD st dest dlen) (hs : src ≠ 0 → RD st src slen) :
+    ∃ r st', exec (memcmp16_s dest dlen src slen db sb) st = .ok (r, st') ∧ NoStray st st' :=
+  memcmpG_C02 _ _ dest dlen src slen _ _ _ _ db sb st hd hs
+
+/-- **memcmp32_s** (cells are 32-bit elements) -/
+theorem memcmp32_s_C02 (dest dlen src slen : Nat) (db sb : Bos) (st : St)
+    (hd : dest ≠ 0 → RD st dest dlen) (hs : src ≠ 0 → RD st src slen) :
+    ∃ r st', exec (memcmp32_s dest dlen src slen db sb) st = .ok (r, st') ∧ NoStray st st' :=
+  memcmpG_C02 _ _ dest dlen src slen _ _ _ _ db sb st hd hs
+
 /-! ### in place: case mapping and strnterminate_s (dest is read AND written inside its dmax cells only) -/
 
 theorem Acc_caseLoop (lo' hi' : Nat) (f : Nat → Nat) (dmax dest : Nat) :
